@@ -24,7 +24,7 @@ def body(run):
     try:
         out, meta = run.drive("c01")
         run.absorb(meta)
-        run.validate(out, meta)
+        run.validate(out, meta, max_findings=3)     # per trace file (five files): enough to show a defect, triage stays short
         run.selftest(out, meta, gen="prog")
         # a kept result that changed must be rejected (the Again observation is judged, not decoration)
         run.selftest(out, meta, gen="keep", field="kept", removed=False)
